@@ -20,6 +20,8 @@ Modes (= where the state lives that the statement's expressions read):
     actattr   `$a.v`, a parameter of a referenced action (changed by its ...ActionUpdated event)
     sibling   `$c.v` where `$c` is assigned by the SIBLING head of an and-group (`match Ev(x=$c.v) and Set0() as $c`)
     action    `match $a<k>.Finished(final_script=<expr over global>)`: instance reference + changing parameter
+    flowctor  `match child(x=<expr over global>).Finished()`: flow-constructor statement (internal FlowFinished events of three
+              running `child` instances) + changing parameter; oracle and recorded-call replay only (no `runHist` request)
 
 Options: the statement inside `while True` (second reach of the same statement), two instances of the waiting flow
 (`start waiter(tag=0)`, `start waiter(tag=1)`; the statement also names the flow-local `$tag`), one or two variables,
@@ -35,7 +37,7 @@ import io
 
 from . import valjson as vj
 
-MODES = ["ctx", "ctx", "static", "setter", "flowattr", "actattr", "sibling", "action"]
+MODES = ["ctx", "ctx", "static", "setter", "flowattr", "actattr", "sibling", "action", "flowctor"]
 STR_VALS = ["a", "b", "ab", "ba", "", "aXb"]
 INT_VALS = [0, 1, 2, 3, -1]
 
@@ -172,7 +174,11 @@ def g_case(rng):
         while isinstance(init[0], dict) and "l" in init[0] and init[0]["l"] and isinstance(init[0]["l"][0], dict) and "d" in init[0]["l"][0]:
             init[0] = g_value(rng, classes[0])
     tmpl = g_tmpl(rng, nvars, classes, rng.choice([0, 0, 1, 2]))
-    loop = mode not in ("sibling", "action") and rng.random() < 0.35
+    if mode == "flowctor":
+        nvars, classes = 1, [rng.choice(["int", "int", "int", "any"])]
+        init = [{"i": rng.choice([0, 1, 2, 3])} if classes[0] == "int" else g_value(rng, "any")]
+        tmpl = {"cat": [0, {"i": 1}]} if classes[0] == "int" and rng.random() < 0.3 else {"v": 0}
+    loop = mode not in ("sibling", "action", "flowctor") and rng.random() < 0.35
     ninst = 2 if mode in ("ctx", "static", "setter") and rng.random() < 0.4 else 1
     case = {"kind": "e2e_hist", "mode": mode, "nvars": nvars, "classes": classes, "init": init, "tmpl": tmpl, "loop": loop, "ninst": ninst, "steps": []}
     if ninst == 2 and rng.random() < 0.4:
@@ -194,12 +200,18 @@ def g_case(rng):
         cur = subst(tmpl, vals)
         if r < 0.3 and not (mode == "sibling" and sets_done >= 1):
             i = rng.randrange(nvars)
-            if mode == "static":
+            if mode == "flowctor" and classes[0] == "int":
+                v = {"i": rng.choice([0, 1, 2, 3])}
+                step = {"op": "set", "var": 0, "val": v}
+                if rng.random() < 0.3:
+                    step["direct"] = True
+                vals[0] = v
+            elif mode == "static":
                 step = {"op": "set", "var": i, "val": vals[i]} if rng.random() < 0.5 else {"op": "set", "var": 9, "val": g_value(rng, "any")}
             else:
                 v = g_value(rng, classes[i])
                 step = {"op": "set", "var": i, "val": v}
-                if mode in ("ctx", "action") and rng.random() < 0.3:
+                if mode in ("ctx", "action", "flowctor") and rng.random() < 0.3:
                     step["direct"] = True  # the host writes state.context itself between two events (no ContextUpdate event)
                 if cur is not ERR and cur not in seen_pats:
                     seen_pats.append(cur)
@@ -209,6 +221,9 @@ def g_case(rng):
             continue
         if r < 0.38:
             case["steps"].append({"op": "noise"})
+            continue
+        if mode == "flowctor":
+            case["steps"].append({"op": "ev", "target": rng.choice([0, 1, 2, 2, 1, 0, 5])})
             continue
         # an event with the statement's name
         q = rng.random()
@@ -274,6 +289,11 @@ def source(case):
         for j in range(case["n"]):
             L.append(f'  start UtteranceBotAction(script="one") as $a{j}')
         L += _stmt_lines(case, "  ", f"$a{case['k']}.Finished(final_script={pat})", "0") + ["  match Never()"]
+    elif mode == "flowctor":
+        pat = render_tmpl(case["tmpl"], lambda i: f"$g{i}")
+        L += ["flow child $x", "  match Done(id=$x)", "flow main", "  global $g0"]
+        L += [f"  start child(x={j}) as $r{j}" for j in range(3)]
+        L += _stmt_lines(case, "  ", f"child(x={pat}).Finished()", "0") + ["  match Never()"]
     elif mode == "flowattr":
         pat = render_tmpl(case["tmpl"], lambda i: f"$h{i}.val")
         for i in range(nvars):
@@ -327,7 +347,7 @@ def run(case, sm, recorder_cls):
         with rec, contextlib.redirect_stdout(io.StringIO()):
             st = State(flow_states=[], flow_configs=cfg)
             sm.initialize_state(st)
-            if mode in ("ctx", "static", "action"):
+            if mode in ("ctx", "static", "action", "flowctor"):
                 sm.run_to_completion(st, {"type": "ContextUpdate", "data": {f"g{i}": v for i, v in enumerate(init)}})
             sm.run_to_completion(st, InternalEvent(name="StartFlow", arguments={"flow_id": "main"}))
             started = [e for e in st.outgoing_events if str(e.get("type", "")).startswith("Start") and "action_uid" in e]
@@ -350,12 +370,15 @@ def run(case, sm, recorder_cls):
                         st.context[f"g{i}"] = v
                         obs["hits"].append([])
                         continue
-                    if mode in ("ctx", "static", "action"):
+                    if mode in ("ctx", "static", "action", "flowctor"):
                         d = {"type": "ContextUpdate", "data": {f"g{i}": v}}
                     elif mode == "actattr":
                         d = {"type": "TimerBotActionUpdated", "action_uid": uids[i], "v": v}
                     else:
                         d = {"type": f"Set{i}", "v": v}
+                elif mode == "flowctor":
+                    d = {"type": "Done", "id": step["target"]}
+                    obs["seen"].append(None)
                 else:
                     x = vj.dec(step["x"])
                     rx_vals.append(x)
@@ -391,6 +414,7 @@ def expected_hits(case):
     tags = list(range(case["ninst"]))
     done = {t: False for t in tags}
     sib_set = sib_ev = False
+    fin = set()
     out = []
     for n, step in enumerate(case["steps"]):
         hits = []
@@ -405,6 +429,25 @@ def expected_hits(case):
                 vals[step["var"]] = step["val"]
             elif step["var"] < len(vals):
                 assert vals[step["var"]] == step["val"]
+        elif step["op"] == "ev" and mode == "flowctor":
+            # Done(id=j) finishes the running child instance j (once): its FlowFinished event carries the flow parameter x=j
+            j = step["target"]
+            cur = subst(case["tmpl"], vals)
+            if cur is ERR:
+                return out, n
+            if j in (0, 1, 2) and j not in fin:
+                fin.add(j)
+                if not done[0]:
+                    full, ref = {"x": j}, {"x": vj.dec(cur)}
+                    if base.cmp_error_possible(full, ref):
+                        return out, n
+                    try:
+                        m = base.doc_matches(full, ref)
+                    except base._Err:
+                        return out, n
+                    if m:
+                        done[0] = True
+                        hits.append(0)
         elif step["op"] == "ev":
             cur = subst(case["tmpl"], vals)
             if cur is ERR:
@@ -477,7 +520,7 @@ def _vals_at(case, upto):
 
 def model_request(case, obs):
     """the whole history for `Match.runHist` (only the plain-event modes: the statement is `match Ev(x=<tmpl>, t=<tag>)`)"""
-    if "skip" in obs:
+    if "skip" in obs or case["mode"] == "flowctor":
         return None
     steps = []
     if len(obs.get("seen", [])) != len(case["steps"]):
